@@ -29,6 +29,7 @@ Next ==
           \/ \E d \in {1, 2} : Do(St(kw, "wait", d, 0, 0))
           \/ Do(St(kw, "nothing", 0, 0, 0))
           \/ \E e \in Events : Do(St(kw, "repeat", e, 0, 2))
+          \/ Do(St(kw, "reproduce", 0, 0, 0))
      \/ \E k \in {"entered", "not_entered", "exited", "not_exited", "active", "not_active"} :
           \E s \in States(c) : Do(St("then", k, s, 0, 0))
      \/ \E e \in Events : \/ Do(St("then", "fired", e, 0, 0)) \/ Do(St("then", "fired", e, 7, 0))
